@@ -95,6 +95,10 @@ def run(rec, cfg):
             rec.arm("start:sweep")
             if root is not None:
                 D.apply_everywhere(rec, root, rules, rng, cap=4)
+    for i, t in enumerate(RC.long_texts()):
+        if cfg.mine(i):
+            check_parsed(rec, t)
+            rec.arm("start:long-parse")
     n = cfg.scale(160, 25000)
     k = 0
     for src, text, hints in RC.start_texts(cfg, rng, n, equations=0.2):
